@@ -39,6 +39,13 @@ def main(tier, seed):
         for deg in ((1, 2) if quick else (1, 2, 3)):
             jobs.append({"kind": "synth", "id": f"{name}-d{deg}", "text": text, "deg": deg, "N": N, "points": [{}, {}],
                          "timeout": 150 if quick else 400})
+    # the same analyses after another loop with equally named variables was analysed in the same process
+    SQ_A = "x, y, z = 1, 2, 0\nwhile true:\n    z = 1 - z\n    x, y = x + z*x**2 - y**2, y + z*x**2 - y**2\nend\n"
+    SQ_B = "x, y, z = 1, 2, 0\nwhile true:\n    z = z + 1 {1/2} z\n    x, y = x + z*x**2 - y**2, y + z*x**2 - y**2\nend\n"
+    for name, text, pre in (("hist-B-after-A", SQ_B, SQ_A), ("hist-A-after-B", SQ_A, SQ_B),
+                            ("hist-markov-after-A", EXTRA[1][1], SQ_A)):
+        jobs.append({"kind": "synth", "id": f"{name}-d2", "text": text, "deg": 2, "N": N, "points": [{}, {}], "timeout": 200,
+                     "pre": [{"text": pre, "deg": 2}]})
     res = pool.run_jobs(jobs, per_job_timeout=150 if quick else 400)
     traces, meta = [], {}
     notes = {"refused": 0, "no_solution": 0, "solutions": 0, "loops": 0, "unsupported": 0, "timeouts": 0}
